@@ -681,6 +681,7 @@ type chainCase struct {
 	breakChain         string // "", "empty", "bad-leaf-ku", "swap", "wrong-purpose"
 	tags               []string
 	deprecatedValidate bool   // use Revocation.Validate (deprecated API) instead of ValidateContext
+	realCache          bool   // realFetcher only: the fetcher has a cache (a map)
 	realFetcher        bool   // CRLs served over the scripted transport through the real HTTPFetcher
 	cancel             string // "", "before" (context cancelled before the call), "during" (cancelled when the first request arrives), "after"
 	// a sibling of the leaf with this serial (same issuer, same URLs) is checked first, with the same validator, fetcher and
@@ -976,6 +977,9 @@ func runChainCase(r *Runner, cc chainCase, idx int) {
 				hf, herr := corecrl.NewHTTPFetcher(client)
 				if herr != nil {
 					panic(herr)
+				}
+				if cc.realCache {
+					hf.Cache = &lockedCache{m: map[string]*corecrl.Bundle{}}
 				}
 				// what the validator asks of its fetcher is recorded as for the scripted one
 				fetcher = &recordingFetcher{inner: hf, ft: ft}
